@@ -109,6 +109,10 @@ pub struct Pair {
     init_frame: Vec<u8>,
     /// dial number -> the decline reply of that dial is lost on the way (from the schedule being replayed)
     pub abort_lost: std::collections::HashMap<usize, bool>,
+    /// dials whose request was delivered / whose two task results were handled (for `in_flight`)
+    delivered: std::collections::HashSet<usize>,
+    c_handled: std::collections::HashSet<usize>,
+    a_handled: std::collections::HashSet<usize>,
 }
 
 impl Pair {
@@ -133,7 +137,7 @@ impl Pair {
                       let m = crate::replica::build_message(w, &json!([{"t":"fp","x":[0,0,[]],"y":[0,0,[]],"fp":"impossible"}]), &|_| [0xAB; 32]).0;
                       iroh_docs::net::verif_codec::encode_frame(iroh_docs::net::verif_codec::Frame::Init { namespace: w.nsid(), message: m })?
                   },
-                  abort_lost: Default::default() })
+                  abort_lost: Default::default(), delivered: Default::default(), c_handled: Default::default(), a_handled: Default::default() })
     }
 
     fn snapshot(&self) -> (Value, Value) {
@@ -183,6 +187,7 @@ impl Pair {
             }
             "DeliverRequest" => {
                 let d = a["d"].as_u64().unwrap() as usize;
+                self.delivered.insert(d);
                 let m = 3 - self.dials[d - 1].from;
                 let from_id = self.nodes[2 - m].id;
                 let out = self.nodes[m - 1].actor.accept_sync_request(ns, from_id);
@@ -195,6 +200,7 @@ impl Pair {
             }
             "HandleConnectDone" => {
                 let d = a["d"].as_u64().unwrap() as usize;
+                self.c_handled.insert(d);
                 let rec = self.dials[d - 1].clone();
                 let n = rec.from;
                 let other = self.nodes[2 - n].id;
@@ -212,6 +218,7 @@ impl Pair {
             }
             "HandleAcceptDone" => {
                 let d = a["d"].as_u64().unwrap() as usize;
+                self.a_handled.insert(d);
                 let m = 3 - self.dials[d - 1].from;
                 let peer = self.nodes[2 - m].id;
                 let res: Result<SyncFinished, AcceptError> = match a["res"].as_str().unwrap() {
@@ -312,6 +319,20 @@ impl Pair {
         ev
     }
 
+    pub fn clear_progress(&mut self) {
+        self.delivered.clear();
+        self.c_handled.clear();
+        self.a_handled.clear();
+    }
+
+    /// A dial or session of node n is still in flight or its result unhandled (LiveSync!InFlight on the driver's own records).
+    pub fn in_flight(&self, n: usize) -> bool {
+        self.dials.iter().enumerate().any(|(i, d)| {
+            let id = i + 1;
+            (d.from == n && !self.c_handled.contains(&id)) || (d.from != n && self.delivered.contains(&id) && !self.a_handled.contains(&id))
+        })
+    }
+
     /// Run the real `BobState` of node m against a dialer that sends `Init` and (if `gone`) has already dropped its
     /// connection, with an accept callback that declines for `reason`; returns the acceptor's error.
     async fn declined_by_real_acceptor(&self, m: usize, peer: PublicKey, reason: AbortReason, gone: bool) -> AcceptError {
@@ -409,6 +430,7 @@ pub fn run(w: Arc<World>, seed: u64, schedules: Vec<Value>, trace: &mut Trace, s
         trace.emit(json!({"ev":"Reset","run":i,"seed":seed,"syncing":syncing,"hist":acts,"ops":[]}));
         sum.add("histories", 1);
         pair.dials.clear();
+        pair.clear_progress();
         pair.abort_lost = acts.iter().filter(|a| a["a"] == "DeliverAbort")
             .map(|a| (a["d"].as_u64().unwrap_or(0) as usize, a["res"] == "lost")).collect();
         rt.block_on(pair.reset(&w, &syncing));
@@ -419,6 +441,12 @@ pub fn run(w: Arc<World>, seed: u64, schedules: Vec<Value>, trace: &mut Trace, s
                 // remembered peer" is not a demand of C11): the rest of the schedule cannot be replayed, the prefix stands
                 let d = a["d"].as_u64().unwrap_or(0) as usize;
                 if d > pair.dials.len() {
+                    break;
+                }
+                // the model's assumption about its environment (a node re-joins only when nothing of it is in flight) has to
+                // hold for what the driver does, too: if the real nodes started a dial the schedule does not know about,
+                // that dial is never handled - do not re-join over it
+                if a["a"] == "Join" && pair.in_flight(a["n"].as_u64().unwrap_or(0) as usize) {
                     break;
                 }
                 let fut = pair.step(a);
